@@ -292,6 +292,10 @@ class ManifestContext:
                         # another kind of media that (wrongly) shares this track ID
                         continue
                     adp_set.representations.append(mf.representation)
+                if not adp_set.representations:
+                    # e.g. the only media of this track is encrypted and no
+                    # DRM was requested, or its track ID has been changed
+                    continue
                 adp_set.compute_av_values()
                 period.adaptationSets.append(adp_set)
                 if adp_set.content_type == 'video':
